@@ -389,6 +389,48 @@ def wrapper_store_modes():
     return out
 
 
+def simple_store_modes():
+    """{kind: mode} for ClassReference (TypedField.__set__ stores the instance it is given), StructureReference (builds a
+    new structure from the dict) and Anything (no `__set__` of its own: `Field.__set__` puts the value into
+    `instance.__dict__`)"""
+    out = {}
+    st = _parse("structures/structures.py")
+    fn = _find(st, "TypedField", "__set__")
+    x = _final_store_arg(fn) if fn is not None else None
+    if x is not None:
+        out["struct"] = "alias" if isinstance(x, ast.Name) and x.id == "value" else "rebuild"
+    fn = _find(_parse("fields/structure_reference.py"), "StructureReference", "__set__")
+    x = _final_store_arg(fn) if fn is not None else None
+    if x is not None:
+        if isinstance(x, ast.Name) and x.id != "value":
+            binds = [a.value for a in ast.walk(fn) if isinstance(a, ast.Assign)
+                     and any(isinstance(t, ast.Name) and t.id == x.id for t in a.targets)]
+            out["inline"] = "rebuild" if binds and all(isinstance(b, ast.Call) for b in binds) else "alias"
+        else:
+            out["inline"] = "alias" if isinstance(x, ast.Name) else "rebuild"
+    anything = [n for n in _parse("fields/anything.py").body if isinstance(n, ast.ClassDef) and n.name == "Anything"]
+    fn = _find(st, "Field", "__set__")
+    if anything and fn is not None and not any(isinstance(m, ast.FunctionDef) and m.name == "__set__" for m in anything[0].body):
+        stores = [a for a in ast.walk(fn) if isinstance(a, ast.Assign) and isinstance(a.targets[0], ast.Subscript)
+                  and "__dict__" in ast.unparse(a.targets[0])]
+        if stores:
+            out["any"] = "alias" if any(isinstance(a.value, ast.Name) and a.value.id == "value" for a in stores) else "rebuild"
+    return out
+
+
+def private_copy_skips_tuples():
+    """`_private_copy` (multified_wrappers.py) deep-copies the value when `isinstance(value, (<kinds>))`: True when the
+    kinds do not include `tuple` (a tuple holding mutable elements is then stored as given); None without the helper"""
+    fn = _find_fn(_parse("fields/multified_wrappers.py"), "_private_copy")
+    if fn is None:
+        return None
+    tests = [n for n in ast.walk(fn) if isinstance(n, ast.Call) and isinstance(n.func, ast.Name) and n.func.id == "isinstance"
+             and len(n.args) == 2 and isinstance(n.args[0], ast.Name) and n.args[0].id == "value"]
+    if not tests:
+        return None
+    return not any("tuple" in ast.unparse(t.args[1]) for t in tests)
+
+
 def coll_store_modes():
     """{(kind, "typed" | "untyped"): mode} for Set / ImmutableSet / Tuple `__set__` (the collections without a typed
     wrapper class): is what is finally stored still the parameter object on some non-trusted path?"""
@@ -561,10 +603,19 @@ def ast_readings():
                 out[(op, kind, cat)] = "rebuild" if copies else "alias"
     # what the multi-field wrappers' `__set__` finally stores (visible where the option is a container: the rows of
     # scalar / by-reference options show the option's behaviour, not the wrapper's)
+    skips = private_copy_skips_tuples()
     for kind, m in wrapper_store_modes().items():
         for op in ("construct", "setattr"):
             for cat in (("untyped",) if kind == "notF" else ("coll", "inline", "wrap")):
                 out[(op, kind, cat)] = m
+            if kind in ("oneOf", "allOf"):
+                # the wrapper stores `_private_copy(instance, value)`: a copy of "the mutable kinds" — is a tuple one of them?
+                out[(op, kind, "tupl")] = "alias" if (m == "alias" or skips) else m
+            elif kind == "anyOf":
+                out[(op, kind, "tupl")] = m
+    for kind, m in simple_store_modes().items():
+        for op in ("construct", "setattr"):
+            out[(op, kind, "none")] = m
     # Set / ImmutableSet / Tuple `__set__`
     for (kind, typed), m in coll_store_modes().items():
         cats = ("untyped",) if typed == "untyped" else ("number", "string", "scalar", "any", "coll", "struct", "inline", "wrap")
@@ -624,8 +675,9 @@ def probe_row(op, kind, cat, impl, node_path):
         row["returns"] = "raises"
         return row
     paths = [list(p) for p in impl.get("shared_paths", [])]
-    node_shared = node_path in paths
     below = _descendant_shared(paths, node_path)
+    # (a tuple / frozenset handed on as it is, is no mutable object itself: it counts when something below it is shared)
+    node_shared = node_path in paths or (below and node_path in [list(p) for p in impl.get("shared_all_paths", [])])
     leaf_site = kind in ("any", "owner", "misfit", "document", "mapping", "names", "required", "enumValues", "default", "schema",
                          "fieldState")
     is_input = op in ("construct", "setattr", "deserialize", "derive")
@@ -677,7 +729,7 @@ def probe_all():
     from harness.suites import alias as S
     rows = []
     inner_site = {"any": ("any", "none"), "struct": ("struct", "none"), "inline": ("inline", "none"),
-                  "coll": ("array", "untyped"), "wrap": ("anyOf", "coll")}
+                  "coll": ("array", "untyped"), "wrap": ("anyOf", "coll"), "tupl": ("tuplePos", "none")}
     done_all = {}
     for op in S.FIELD_OPS:
         # top-level site of the operation
@@ -706,6 +758,13 @@ def probe_all():
             if kind in S.WRAP_KINDS and cat in inner_site:
                 # a wrapper consumes no path step: aliasing caused by the option itself belongs to the option's row
                 inner = done.get(inner_site[cat])
+                if cat == "tupl":
+                    # the Tuple option of the wrapper witness on its own (its content is untyped, unlike the tuplePos row's)
+                    bc = S.bare_witness_case(op, cat)
+                    bi = S.run_impl(bc) if bc else {}
+                    bpaths = [list(q) for q in bi.get("shared_paths", [])] if bi.get("ok") else []
+                    inner = {"returns": "fresh" if bi.get("ok") else "raises", "_node_shared": node in bpaths,
+                             "_any_shared": any(q[:len(node)] == node for q in bpaths)}
                 if (inner is None or inner["returns"] == "raises") and op == "fastSerialize":
                     # fast serialization delegates to <field>.serialize: same behaviour where the check at
                     # create_serializer time does not look
